@@ -359,6 +359,13 @@ func (g *Gen) instrWritesIn(in ssa.Instruction, ws *WriteSet, scope map[*ssa.Bas
 			return
 		}
 		if sc := cm.StaticCallee(); sc != nil {
+			if builderMutator(sc.String()) && len(cm.Args) > 0 {
+				// the content of a builder that is a plain local of this function is invisible to every caller
+				if !localOnlyBuilder(cm.Args[0], scope) {
+					ws.Names[sbHeap(g)] = true
+				}
+				return
+			}
 			if (sc.String() == "encoding/xml.Unmarshal" || sc.String() == "encoding/json.Unmarshal") && len(cm.Args) == 2 {
 				// documented effect: writes only into the value its second argument points to
 				if hs, ok := g.unmarshalTargetHeaps(cm.Args[1]); ok {
@@ -424,7 +431,7 @@ func (g *Gen) externalWrites(fn *ssa.Function, ws *WriteSet) {
 	case "encoding/xml.Unmarshal", "encoding/json.Unmarshal":
 		ws.Top = true
 		ws.TopWhy = fn.String()
-	case "(*strings.Builder).WriteString":
+	case "(*strings.Builder).WriteString", "(*strings.Builder).Reset", "(*strings.Builder).WriteByte", "(*strings.Builder).WriteRune", "(*strings.Builder).Write":
 		ws.Names[sbHeap(g)] = true
 	case "(*encoding/xml.Decoder).Token", "encoding/xml.NewDecoder":
 		ws.Names[xmlRemHeap(g)] = true
@@ -550,12 +557,23 @@ func (g *Gen) loopWrites(fn *ssa.Function, li *loopInfo) *WriteSet {
 						}
 					}
 					if !star {
+						// ghost state is not nameable in a modifies clause: the call site havocs whatever ghost heaps
+						// the callee's inferred write set contains (applyContract), so the loop must havoc them too
+						for _, h := range g.WriteSetOf(cal).Sorted() {
+							if strings.HasPrefix(h, "G_ghost_") {
+								ws.Names[h] = true
+							}
+						}
 						continue
 					}
 				}
 				if cal.String() == "io.ReadAll" {
 					// allocates and fills a fresh byte array: inside a loop the cell heap gets a new version per iteration
 					ws.Names[g.TE.CellHeap(types.Universe.Lookup("byte").Type())] = true
+				}
+				if cal.String() == "strings.Fields" || cal.String() == "strings.Split" {
+					// returns a fresh array of strings: the cell heap gets a new version per iteration
+					ws.Names[g.TE.CellHeap(types.Typ[types.String])] = true
 				}
 				ws.add(g.WriteSetOf(cal))
 			}
